@@ -231,8 +231,18 @@ pub fn check_program(ctx: &mut Ctx, start: &Pos, moves: &[Mv], ops: &[Op]) -> Re
                 let steps_first = if mode < 12 { usize::MAX } else { (fp(&(i, "steps")) % 4) as usize };
                 let mut finished = false;
                 let mut skipped_unknown = 0usize;
+                // one phase in four (of those drained call by call) is ended the way a counting loop
+                // ends it - when len() says nothing is left - without asking for the final None
+                let stop_by_len = mode < 12 && fp(&(i, mask, "stop")) % 4 == 0;
+                let mut stopped_by_len = false;
                 while got.len() < steps_first {
                     lens.push((mg.len(), mg.size_hint()));
+                    if stop_by_len && lens.last().unwrap().0 == 0 {
+                        finished = true;
+                        stopped_by_len = true;
+                        ctx.class("drain:ended-by-len()==0-without-final-None");
+                        break;
+                    }
                     match mg.next() {
                         Some(m) => got.push(bridge::rmv(m)),
                         None => {
@@ -360,7 +370,7 @@ pub fn check_program(ctx: &mut Ctx, start: &Pos, moves: &[Mv], ops: &[Op]) -> Re
                     lens = full;
                 }
                 // exhausted stays exhausted
-                if !consumed_by_value && mg.next().is_some() {
+                if !consumed_by_value && !stopped_by_len && mg.next().is_some() {
                     ctx.fail("iter:yields-after-exhaustion", format!("phase #{}: next() returned a move after None", i), case())?;
                 }
                 if !got.is_empty() {
